@@ -25,7 +25,7 @@ struct line_s {
 	int y, m, d, sod;
 	int64_t inst;	/* filled in from the reference calendar */
 };
-static struct line_s alpha[] = {
+static struct line_s alpha0[] = {
 	{"2012-03-01 a", K_DATE, 2012, 3, 1, 0, 0},
 	{"b 2012-03-01", K_DATE, 2012, 3, 1, 0, 0},
 	{"2011-12-31", K_DATE, 2011, 12, 31, 0, 0},
@@ -40,7 +40,46 @@ static struct line_s alpha[] = {
 	{"2010-W30-1", K_YWD, 2010, 7, 26, 0, 0},
 };
 #define NALPHA_SHORT	9
-#define NALPHA		((int)(sizeof(alpha) / sizeof(*alpha)))
+#define NALPHA		((int)(sizeof(alpha0) / sizeof(*alpha0)))
+/* configuration 1: sub-second parts, read with -i '%FT%T.%N' (dtest orders by them); .inst is filled in,
+ * the nanoseconds are in NS1[] */
+static struct line_s alpha1[] = {
+	{"x 2012-01-02T10:00:00.900000000 b", K_DT, 2012, 1, 2, 36000, 0},
+	{"y 2012-01-02T10:00:00.100000000 a", K_DT, 2012, 1, 2, 36000, 0},
+	{"2012-01-02T10:00:01.000000001", K_DT, 2012, 1, 2, 36001, 0},
+	{"z 2012-01-02T09:59:59.999999999", K_DT, 2012, 1, 2, 35999, 0},
+	{"no date here", K_NONE, 0, 0, 0, 0, 0},
+};
+static const int ns1[] = {900000000, 100000000, 1, 999999999, 0};
+/* configuration 2: lines containing the byte 0x01 (dsort's own field separator towards sort and cut) */
+static struct line_s alpha2[] = {
+	{"2012-03-01 a\001zz", K_DATE, 2012, 3, 1, 0, 0},
+	{"2011-12-31\001", K_DATE, 2011, 12, 31, 0, 0},
+	{"\001x 2012-03-02", K_DATE, 2012, 3, 2, 0, 0},
+	{"2012-03-01 b", K_DATE, 2012, 3, 1, 0, 0},
+	{"no\001date", K_NONE, 0, 0, 0, 0, 0},
+};
+#define NALPHA_X	5
+static struct line_s *alpha = alpha0;
+static int cfg;		/* 0: main alphabet; 1: sub-seconds; 2: byte 0x01 */
+static const char *const cfg_ifmt[3] = {NULL, "%FT%T.%N", NULL};
+static const char *const cfg_tag[3] = {"", " [sub-second parts, -i %FT%T.%N]", " [lines containing byte 0x01]"};
+
+static int
+line_ns(const struct line_s *l)
+{
+	return cfg == 1 ? ns1[l - alpha1] : 0;
+}
+
+/* -1/0/1 on the timeline */
+static int
+line_cmp(const struct line_s *a, const struct line_s *b)
+{
+	if (a->inst != b->inst) {
+		return a->inst < b->inst ? -1 : 1;
+	}
+	return (line_ns(a) > line_ns(b)) - (line_ns(a) < line_ns(b));
+}
 #define MAXLEN		5
 
 static int
@@ -73,10 +112,19 @@ run_dsort(const char *in, size_t inlen, int rev, char *out, size_t osz, size_t *
 		close(ifd), close(ofd), close(n2);
 		setenv("LC_ALL", "C", 1);
 		alarm(20);
-		if (rev) {
-			execl(exe, "dsort", "-r", (char*)NULL);
-		} else {
-			execl(exe, "dsort", (char*)NULL);
+		{
+			const char *av[6];
+			int ac = 0;
+			av[ac++] = "dsort";
+			if (rev) {
+				av[ac++] = "-r";
+			}
+			if (cfg_ifmt[cfg]) {
+				av[ac++] = "-i";
+				av[ac++] = cfg_ifmt[cfg];
+			}
+			av[ac] = NULL;
+			execv(exe, (char *const*)av);
 		}
 		_exit(127);
 	}
@@ -126,13 +174,21 @@ judge(const int *seq, int len, int rev, int replay)
 	++*c_bind;
 	ex_outcome(ex_hash_mix(ex_hash(out, outlen), (uint64_t)status * 2 + (uint64_t)rev));
 	seq_str(sq, sizeof(sq), seq, len);
-	snprintf(cas, sizeof(cas), "%d %d %s", rev, len, sq);
+	snprintf(cas, sizeof(cas), "%d %d %d %s", cfg, rev, len, sq);
 	{
 		size_t k = (size_t)snprintf(cmd, sizeof(cmd), "printf '");
 		for (int i = 0; i < len; i++) {
-			k += (size_t)snprintf(cmd + k, sizeof(cmd) - k, "%s\\n", alpha[seq[i]].text);
+			for (const char *c = alpha[seq[i]].text; *c && k + 8 < sizeof(cmd); c++) {
+				if (*c == '\001') {
+					k += (size_t)snprintf(cmd + k, sizeof(cmd) - k, "\\001");
+				} else {
+					cmd[k++] = *c;
+				}
+			}
+			k += (size_t)snprintf(cmd + k, sizeof(cmd) - k, "\\n");
 		}
-		snprintf(cmd + k, sizeof(cmd) - k, "' | dsort%s", rev ? " -r" : "");
+		snprintf(cmd + k, sizeof(cmd) - k, "' | dsort%s%s%s%s", rev ? " -r" : "", cfg_ifmt[cfg] ? " -i '" : "", cfg_ifmt[cfg] ? cfg_ifmt[cfg] : "",
+			 cfg_ifmt[cfg] ? "'" : "");
 	}
 	if (replay) {
 		printf("  %s\n  status %d, output:\n", cmd, status);
@@ -146,7 +202,7 @@ judge(const int *seq, int len, int rev, int replay)
 		}
 	}
 	if (status != 0) {
-		snprintf(key, sizeof(key), "dsort%s ends abnormally (status %d)", rev ? " -r" : "", status);
+		snprintf(key, sizeof(key), "dsort%s ends abnormally (status %d)%s", rev ? " -r" : "", status, cfg_tag[cfg]);
 		ex_viol(key, len, cas, cmd, "dsort on %d lines ends with status %d", len, status);
 		return 1;
 	}
@@ -173,7 +229,7 @@ judge(const int *seq, int len, int rev, int replay)
 			p = q + 1;
 		}
 		if (!perm_ok || nout != len) {
-			snprintf(key, sizeof(key), "dsort%s output is not a permutation of the input lines", rev ? " -r" : "");
+			snprintf(key, sizeof(key), "dsort%s output is not a permutation of the input lines%s", rev ? " -r" : "", cfg_tag[cfg]);
 			ex_viol(key, len, cas, cmd, "dsort%s on %d lines: %d output lines matched; output %zu bytes for %zu input bytes",
 				rev ? " -r" : "", len, nout, outlen, inlen);
 			return 1;
@@ -185,7 +241,7 @@ judge(const int *seq, int len, int rev, int replay)
 		for (int i = 0; i < len; i++) {
 			for (int j = i + 1; j < len; j++) {
 				const struct line_s *a = alpha + seq[i], *b = alpha + seq[j];
-				if (a->kind == b->kind && a->kind != K_NONE && (rev ? a->inst < b->inst : a->inst > b->inst)) {
+				if (a->kind == b->kind && a->kind != K_NONE && (rev ? line_cmp(a, b) < 0 : line_cmp(a, b) > 0)) {
 					nt = 1;	/* the input holds an inversion that sorting has to repair */
 				}
 			}
@@ -199,8 +255,8 @@ judge(const int *seq, int len, int rev, int replay)
 				continue;
 			}
 			++*c_trans;
-			if (rev ? a->inst < b->inst : a->inst > b->inst) {
-				snprintf(key, sizeof(key), "dsort%s order kind=%s", rev ? " -r" : "", kind_name[a->kind]);
+			if (rev ? line_cmp(a, b) < 0 : line_cmp(a, b) > 0) {
+				snprintf(key, sizeof(key), "dsort%s order kind=%s%s", rev ? " -r" : "", kind_name[a->kind], cfg_tag[cfg]);
 				ex_viol(key, len, cas, cmd, "dsort%s prints '%s' before '%s' although it is %s", rev ? " -r" : "",
 					a->text, b->text, rev ? "earlier" : "later");
 				if (replay) {
@@ -222,11 +278,14 @@ main(int argc, char *argv[])
 
 	ex_init(argc, argv);
 	rc_selfcheck();
-	for (int i = 0; i < NALPHA; i++) {
-		if (alpha[i].kind == K_TIME) {
-			alpha[i].inst = alpha[i].sod;
-		} else if (alpha[i].kind != K_NONE) {
-			alpha[i].inst = (int64_t)rc_rd(alpha[i].y, alpha[i].m, alpha[i].d) * 86400 + alpha[i].sod;
+	for (int c = 0; c < 3; c++) {
+		struct line_s *al = c == 0 ? alpha0 : c == 1 ? alpha1 : alpha2;
+		for (int i = 0; i < (c == 0 ? NALPHA : NALPHA_X); i++) {
+			if (al[i].kind == K_TIME) {
+				al[i].inst = al[i].sod;
+			} else if (al[i].kind != K_NONE) {
+				al[i].inst = (int64_t)rc_rd(al[i].y, al[i].m, al[i].d) * 86400 + al[i].sod;
+			}
 		}
 	}
 	/* the ISO week texts must denote the days claimed above */
@@ -242,16 +301,18 @@ main(int argc, char *argv[])
 	if (ex.cas) {
 		int rev, len, seq[MAXLEN], n = 0;
 		const char *p = ex.cas;
-		if (sscanf(p, "%d %d%n", &rev, &len, &n) != 2 || len < 0 || len > MAXLEN) {
+		if (sscanf(p, "%d %d %d%n", &cfg, &rev, &len, &n) != 3 || len < 0 || len > MAXLEN || cfg < 0 || cfg > 2) {
 			return ex_replay_result(1, "bad case string '%s'", ex.cas);
 		}
 		p += n;
 		for (int i = 0; i < len; i++) {
-			if (sscanf(p, "%d%n", seq + i, &n) != 1 || seq[i] < 0 || seq[i] >= NALPHA) {
+			alpha = cfg == 0 ? alpha0 : cfg == 1 ? alpha1 : alpha2;
+			if (sscanf(p, "%d%n", seq + i, &n) != 1 || seq[i] < 0 || seq[i] >= (cfg == 0 ? NALPHA : NALPHA_X)) {
 				return ex_replay_result(1, "bad case string '%s'", ex.cas);
 			}
 			p += n;
 		}
+		alpha = cfg == 0 ? alpha0 : cfg == 1 ? alpha1 : alpha2;
 		return ex_replay_result(judge(seq, len, rev, 1), "dsort%s on %d lines", rev ? " -r" : "", len);
 	}
 	/* the full alphabet up to length LFULL, the alphabet without the ISO-week lines at the last length */
@@ -272,8 +333,9 @@ main(int argc, char *argv[])
 			"without a date and equal instants may come in any order. non-trivial = the input holds an inversion among same-kind lines");
 		ex_meta("bound", "all sequences of length 0..%d over the %d-line alphabet (two texts of one date, an earlier date, two date-times, "
 			"two times, a line without a date, an empty line, two ISO-week dates) and all of length %d over its first %d lines "
-			"(without the ISO-week dates): %ld sequences x {no option, -r} = %ld runs of the binary",
-			maxlen - 1, NALPHA, maxlen, NALPHA_SHORT, tot, 2 * tot);
+			"(without the ISO-week dates): %ld sequences x {no option, -r} = %ld runs of the binary; plus all sequences of length 0..%d over "
+			"two 5-line alphabets: date-times with sub-second parts read with -i %%FT%%T.%%N, and lines containing the byte 0x01",
+			maxlen - 1, NALPHA, maxlen, NALPHA_SHORT, tot, 2 * tot, ex.thorough ? 5 : 3);
 		ex_meta("binding", "every case is a run of the dsort binary of the same build (sort and cut from PATH, LC_ALL=C)");
 	}
 	/* canonical order: by length, then lexicographic; a slice = the sequences sharing all but the last two letters */
@@ -311,6 +373,41 @@ main(int argc, char *argv[])
 				}
 			}
 		}
+	}
+	/* configurations 1 and 2: all sequences up to length 3 (quick) / 5 (thorough) over their 5-line alphabets */
+	{
+		uint64_t slice = 1000000;
+		int xlen = ex.thorough ? 5 : 3;
+		for (cfg = 1; cfg <= 2; cfg++) {
+			alpha = cfg == 1 ? alpha1 : alpha2;
+			for (int len = 0; len <= xlen; len++) {
+				int seq[MAXLEN] = {0};
+				long n = 1;
+				for (int i = 0; i < len; i++) {
+					n *= NALPHA_X;
+				}
+				for (long k = 0; k < n; k++) {
+					long x = k;
+					if (k % NALPHA_X == 0) {
+						slice++;
+					}
+					if (!ex_mine(slice) || ex_expired()) {
+						continue;
+					}
+					for (int i = len - 1; i >= 0; i--) {
+						seq[i] = (int)(x % NALPHA_X);
+						x /= NALPHA_X;
+					}
+					++*c_states;
+					for (int rev = 0; rev < 2; rev++) {
+						judge(seq, len, rev, 0);
+						++*c_traces;
+					}
+				}
+			}
+		}
+		cfg = 0;
+		alpha = alpha0;
 	}
 	return ex_finish();
 }
